@@ -71,7 +71,7 @@ def main():
     for wn in worlds:
         data = json.loads(vlib.harness(["data", "-worlds", wn]).stdout)
         world = build_world(wn, data, chk.tier, rnd)
-        res = vlib.run_world(chk, "c01-" + wn, world, replay_args=["-sels", "auto,pointer"] if wn in ("containers", "json") else [])
+        res = vlib.run_world(chk, "c01-" + wn, world, replay_args=["-sels", "auto,pointer"] if wn in ("containers", "json") else (["-lits", "auto,bare"] if wn == "scalars" else []))
         chk.cov["evaluations"] += res["evals"]
         skipped += res["skipped"]
         for k, v in res["byoutcome"].items():
